@@ -85,6 +85,7 @@ package fosite
 //@   ensures [C12.string-in-slice] result <==> (exists j int :: 0 <= j && j < len(haystack) && strings.ToLower(haystack[j]) == strings.ToLower(needle))
 //@   ensures [C05.membership-is-lowercase-equality] result <==> (exists j int :: 0 <= j && j < len(haystack) && strings.ToLower(haystack[j]) == strings.ToLower(needle))
 //@   invariant loop#1 [C12.string-in-slice] $i <= len(haystack) && (forall j int :: 0 <= j && j < $i ==> strings.ToLower(haystack[j]) != strings.ToLower(needle))
+//@   invariant loop#1 [C05.membership-is-lowercase-equality] $i <= len(haystack) && (forall j int :: 0 <= j && j < $i ==> strings.ToLower(haystack[j]) != strings.ToLower(needle))
 
 //@ func (Arguments).Has
 //@   pure
@@ -445,6 +446,7 @@ package fosite
 //@   invariant loop#3 $i <= len(pre(request.GetRequestedAudience())) && (forall x string :: insl(a.RequestedAudience, x) ==> insl(old(a.RequestedAudience), x) || insl(pre(request.GetRequestedAudience()), x)) && (forall x string :: insl(old(a.RequestedAudience), x) ==> insl(a.RequestedAudience, x)) && (forall j int :: 0 <= j && j < $i ==> insl(a.RequestedAudience, pre(request.GetRequestedAudience())[j]))
 //@   invariant loop#4 $i <= len(pre(request.GetGrantedAudience())) && (forall x string :: insl(a.GrantedAudience, x) ==> insl(old(a.GrantedAudience), x) || insl(pre(request.GetGrantedAudience()), x)) && (forall x string :: insl(old(a.GrantedAudience), x) ==> insl(a.GrantedAudience, x)) && (forall j int :: 0 <= j && j < $i ==> insl(a.GrantedAudience, pre(request.GetGrantedAudience())[j]))
 //@   invariant loop#5 [C17.merge-replaces-form-values] a.Form == pre(a.Form) && (forall k string :: (k in a.Form) == (old(k in a.Form) || ($visited(k) && k in pre(request.GetRequestForm())))) && (forall k string :: a.Form != pre(request.GetRequestForm()) && $visited(k) && k in pre(request.GetRequestForm()) ==> a.Form[k] == pre(request.GetRequestForm())[k]) && (forall k string :: !$visited(k) || !(k in pre(request.GetRequestForm())) ==> a.Form[k] == old(a.Form[k]))
+//@   invariant loop#5 [C02.merged-form-is-the-pushed-form] a.Form == pre(a.Form) && (forall k string :: (k in a.Form) == (old(k in a.Form) || ($visited(k) && k in pre(request.GetRequestForm())))) && (forall k string :: a.Form != pre(request.GetRequestForm()) && $visited(k) && k in pre(request.GetRequestForm()) ==> a.Form[k] == pre(request.GetRequestForm())[k]) && (forall k string :: !$visited(k) || !(k in pre(request.GetRequestForm())) ==> a.Form[k] == old(a.Form[k]))
 
 //@ func (*Fosite).authorizeRequestFromPAR
 //@   let uri = old(formget(r.Form, "request_uri"))
